@@ -7,32 +7,70 @@ import (
 
 // C12: code-shape facts of storage/snapshots/store.go that the sequential model of the store relies on.
 //
-//	c12CallsAtomic            every public state-changing call is `s.stateMu.Lock(); defer s.stateMu.Unlock(); …`
-//	                          with no other Lock/Unlock of stateMu in its body (one call = one critical section)
-//	c12FinishHoldsLock        finishSnapshot never touches stateMu itself: the lock of the calling Add…Snapshot is
-//	                          held across sourceSplitter.Checkpoint() until the caller clears pendingSnapshot
-//	c12LoadCounterMaxLocal    LoadCheckpoint sets the id counter exactly once, to
-//	                          max(loadedCheckpoint.Id, newestLocalID), where newestLocalID is only raised to ids decoded
-//	                          from listed file names (checkpointIDFromFilePath)
+//	c12CallsAtomic          HARD. every public state-changing call of Store starts with `s.stateMu.Lock()` followed by
+//	                        `defer s.stateMu.Unlock()` and neither it nor any Store method it calls synchronously
+//	                        (helpers, at any depth; bodies of `go` statements and function literals excluded) touches
+//	                        stateMu again: one call = one critical section.
+//	c12FinishHoldsLock      HARD. sourceSplitter.Checkpoint() is called synchronously inside the critical section of
+//	                        AddOperatorSnapshot and AddSourceSnapshot (through whatever helpers), and no function on that
+//	                        path releases the lock: a finished snapshot is never visible as pending to another call.
+//	c12LoadCounterMaxLocal  observed by C12 (`restart`/`sprestart` followed by `create`): LoadCheckpoint sets the id
+//	                        counter once, to max(loadedCheckpoint.Id, newestLocalID). 0 = the old rule (loaded id only);
+//	                        any other shape is reported as not re-derivable (last value kept, fallback correspondence).
+//
+// The recognisers are structural (which calls happen under the lock), independent of local names, comments and of
+// helper extraction inside store.go.
 func init() { extraFactFns = append(extraFactFns, c12Facts) }
 
-func isMuCall(e ast.Expr, method string) bool {
-	c, ok := e.(*ast.CallExpr)
-	return ok && selName(c.Fun) == "s.stateMu."+method
-}
-
-func countMuCalls(n ast.Node) int {
+// muOps counts stateMu operations in n, not descending into function literals (they run later / elsewhere).
+func muOps(n ast.Node, recv string) int {
 	k := 0
 	ast.Inspect(n, func(x ast.Node) bool {
-		if c, ok := x.(*ast.CallExpr); ok {
+		switch c := x.(type) {
+		case *ast.FuncLit:
+			return false
+		case *ast.CallExpr:
 			switch selName(c.Fun) {
-			case "s.stateMu.Lock", "s.stateMu.Unlock", "s.stateMu.TryLock":
+			case recv + ".stateMu.Lock", recv + ".stateMu.Unlock", recv + ".stateMu.TryLock", recv + ".stateMu.RLock", recv + ".stateMu.RUnlock":
 				k++
 			}
 		}
 		return true
 	})
 	return k
+}
+
+func recvName(fn *ast.FuncDecl) string {
+	if fn.Recv != nil && len(fn.Recv.List) == 1 && len(fn.Recv.List[0].Names) == 1 {
+		return fn.Recv.List[0].Names[0].Name
+	}
+	return "s"
+}
+
+// syncCallees returns the Store methods called synchronously from fn (not from go statements / function literals),
+// and whether a `.Checkpoint()` call on something else than the receiver happens synchronously in fn.
+func syncCallees(fn *ast.FuncDecl, methods map[string]*ast.FuncDecl) (callees []string, callsCheckpoint bool) {
+	recv := recvName(fn)
+	ast.Inspect(fn.Body, func(x ast.Node) bool {
+		switch c := x.(type) {
+		case *ast.FuncLit:
+			return false
+		case *ast.GoStmt:
+			return false
+		case *ast.CallExpr:
+			if sel, ok := c.Fun.(*ast.SelectorExpr); ok {
+				if id, ok := sel.X.(*ast.Ident); ok && id.Name == recv {
+					if _, ok := methods[sel.Sel.Name]; ok {
+						callees = append(callees, sel.Sel.Name)
+					}
+				} else if sel.Sel.Name == "Checkpoint" {
+					callsCheckpoint = true
+				}
+			}
+		}
+		return true
+	})
+	return
 }
 
 func c12Facts(fc *facts) {
@@ -43,71 +81,149 @@ func c12Facts(fc *facts) {
 		}
 		return 0
 	}
+	methods := map[string]*ast.FuncDecl{}
+	for _, d := range f.Decls {
+		if fd, ok := d.(*ast.FuncDecl); ok && fd.Body != nil && fd.Recv != nil && findFunc(f, "Store", fd.Name.Name) == fd {
+			methods[fd.Name.Name] = fd
+		}
+	}
+	// closure of synchronous helper calls; reports lock operations in helpers and a synchronous Checkpoint() call
+	var walk func(name string, seen map[string]bool) (helperMuOps int, checkpoint bool)
+	walk = func(name string, seen map[string]bool) (int, bool) {
+		fn := methods[name]
+		callees, cp := syncCallees(fn, methods)
+		ops := 0
+		for _, c := range callees {
+			if seen[c] {
+				continue
+			}
+			seen[c] = true
+			ops += muOps(methods[c].Body, recvName(methods[c]))
+			o, p := walk(c, seen)
+			ops += o
+			cp = cp || p
+		}
+		return ops, cp
+	}
 	atomic := true
+	finishHolds := true
 	for _, name := range []string{"CreateCheckpoint", "CreateSavepoint", "AddOperatorSnapshot", "AddSourceSnapshot", "RegisterSourceSplitter", "CurrentCheckpoint"} {
-		fn := findFunc(f, "Store", name)
-		if fn == nil || fn.Body == nil || len(fn.Body.List) < 2 {
+		fn := methods[name]
+		if fn == nil || len(fn.Body.List) < 2 {
 			problem("snapshots.Store.%s not found", name)
 			return
 		}
+		recv := recvName(fn)
 		first, ok1 := fn.Body.List[0].(*ast.ExprStmt)
 		second, ok2 := fn.Body.List[1].(*ast.DeferStmt)
-		if !(ok1 && ok2 && isMuCall(first.X, "Lock") && isMuCall(second.Call, "Unlock") && countMuCalls(fn.Body) == 2) {
+		own := ok1 && ok2 && selCall(first.X) == recv+".stateMu.Lock" && selCall(second.Call) == recv+".stateMu.Unlock" && muOps(fn.Body, recv) == 2
+		helperOps, checkpoint := walk(name, map[string]bool{name: true})
+		if !own || helperOps != 0 {
 			atomic = false
+		}
+		if name == "AddOperatorSnapshot" || name == "AddSourceSnapshot" {
+			if !own || helperOps != 0 || !checkpoint {
+				finishHolds = false
+			}
 		}
 	}
 	fc.set("c12CallsAtomic", b2u(atomic), true, "")
+	fc.set("c12FinishHoldsLock", b2u(finishHolds), true, "")
 
-	fin := findFunc(f, "Store", "finishSnapshot")
-	if fin == nil || fin.Body == nil {
-		problem("snapshots.Store.finishSnapshot not found")
+	load := methods["LoadCheckpoint"]
+	if load == nil {
+		problemFor([]string{"c12LoadCounterMaxLocal"}, "snapshots.Store.LoadCheckpoint not found")
 		return
 	}
-	callsSplitter := false
-	ast.Inspect(fin.Body, func(x ast.Node) bool {
-		if c, ok := x.(*ast.CallExpr); ok {
-			if s, ok := c.Fun.(*ast.SelectorExpr); ok && s.Sel.Name == "Checkpoint" {
-				callsSplitter = true
-			}
-		}
-		return true
-	})
-	fc.set("c12FinishHoldsLock", b2u(callsSplitter && countMuCalls(fin.Body) == 0), true, "")
-
-	load := findFunc(f, "Store", "LoadCheckpoint")
-	if load == nil || load.Body == nil {
-		problem("snapshots.Store.LoadCheckpoint not found")
-		return
-	}
-	nAssign, maxShape := 0, false
-	localOK, localAssigns := true, 0
+	recv := recvName(load)
+	// the counter assignment(s) in LoadCheckpoint
+	var rhs []ast.Expr
+	other := 0
 	ast.Inspect(load.Body, func(x ast.Node) bool {
 		switch n := x.(type) {
 		case *ast.AssignStmt:
 			for i, l := range n.Lhs {
-				switch selName(l) {
-				case "s.state.checkpointID":
-					nAssign++
+				if selName(l) == recv+".state.checkpointID" {
 					if n.Tok == token.ASSIGN && len(n.Rhs) == len(n.Lhs) {
-						if c, ok := n.Rhs[i].(*ast.CallExpr); ok && selName(c.Fun) == "max" && len(c.Args) == 2 {
-							a, b := selName(c.Args[0]), selName(c.Args[1])
-							maxShape = (a == "loadedCheckpoint.Id" && b == "newestLocalID") || (b == "loadedCheckpoint.Id" && a == "newestLocalID")
-						}
-					}
-				case "newestLocalID":
-					// only `newestLocalID = id` (guarded by `id > newestLocalID` in the listing loop)
-					localAssigns++
-					if !(n.Tok == token.ASSIGN && len(n.Rhs) == len(n.Lhs) && selName(n.Rhs[i]) == "id") {
-						localOK = false
+						rhs = append(rhs, n.Rhs[i])
+					} else {
+						other++
 					}
 				}
 			}
 		case *ast.IncDecStmt:
-			if selName(n.X) == "s.state.checkpointID" || selName(n.X) == "newestLocalID" {
-				nAssign += 10
+			if selName(n.X) == recv+".state.checkpointID" {
+				other++
 			}
 		}
 		return true
 	})
-	fc.set("c12LoadCounterMaxLocal", b2u(nAssign == 1 && maxShape && localOK && localAssigns == 1), true, "")
+	isLoadedID := func(e ast.Expr) bool {
+		s, ok := e.(*ast.SelectorExpr)
+		return ok && s.Sel.Name == "Id"
+	}
+	switch {
+	case other == 0 && len(rhs) == 1 && isLoadedID(rhs[0]):
+		fc.set("c12LoadCounterMaxLocal", 0, true, "") // the pre-D49 rule: the loaded checkpoint's id only
+	case other == 0 && len(rhs) == 1 && isMaxOfLoadedAndLocal(rhs[0], load, isLoadedID):
+		fc.set("c12LoadCounterMaxLocal", 1, true, "")
+	default:
+		fc.set("c12LoadCounterMaxLocal", 0, false, "LoadCheckpoint's counter assignment `checkpointID = max(<loaded>.Id, <newest local id>)`")
+	}
+}
+
+func selCall(e ast.Expr) string {
+	if c, ok := e.(*ast.CallExpr); ok {
+		return selName(c.Fun)
+	}
+	return ""
+}
+
+// isMaxOfLoadedAndLocal: max(x.Id, v) (either order) where v is a local variable that is only ever assigned the
+// first result of checkpointIDFromFilePath (directly or through `id, ok := checkpointIDFromFilePath(..)`).
+func isMaxOfLoadedAndLocal(e ast.Expr, load *ast.FuncDecl, isLoadedID func(ast.Expr) bool) bool {
+	c, ok := e.(*ast.CallExpr)
+	if !ok || selName(c.Fun) != "max" || len(c.Args) != 2 {
+		return false
+	}
+	var local *ast.Ident
+	switch {
+	case isLoadedID(c.Args[0]):
+		local, _ = c.Args[1].(*ast.Ident)
+	case isLoadedID(c.Args[1]):
+		local, _ = c.Args[0].(*ast.Ident)
+	}
+	if local == nil {
+		return false
+	}
+	// names bound to the id result of checkpointIDFromFilePath
+	decoded := map[string]bool{}
+	ast.Inspect(load.Body, func(x ast.Node) bool {
+		if a, ok := x.(*ast.AssignStmt); ok && len(a.Rhs) == 1 && len(a.Lhs) == 2 {
+			if selCall(a.Rhs[0]) == "checkpointIDFromFilePath" {
+				if id, ok := a.Lhs[0].(*ast.Ident); ok {
+					decoded[id.Name] = true
+				}
+			}
+		}
+		return true
+	})
+	assigns, good := 0, true
+	ast.Inspect(load.Body, func(x ast.Node) bool {
+		a, ok := x.(*ast.AssignStmt)
+		if !ok {
+			return true
+		}
+		for i, l := range a.Lhs {
+			if id, ok := l.(*ast.Ident); ok && id.Name == local.Name && a.Tok == token.ASSIGN {
+				assigns++
+				r, ok := a.Rhs[min(i, len(a.Rhs)-1)].(*ast.Ident)
+				if len(a.Rhs) != len(a.Lhs) || !ok || !decoded[r.Name] {
+					good = false
+				}
+			}
+		}
+		return true
+	})
+	return assigns >= 1 && good
 }
